@@ -740,30 +740,37 @@ func (P *Prog) checkStructWritesByField(r *Result) {
 		}
 		r.sawFunc(fname(fn))
 		// reflect.Value of the destination struct: reflect.ValueOf(ctx.ValPtr).Elem()
+		// (in the node method or in a helper it shares with its twin: `v.eachField(ctx, step, source)`)
 		var structVals []ssa.Value
-		eachInstr(fn, func(_ *ssa.BasicBlock, _ int, in ssa.Instruction) {
-			c, ok := in.(*ssa.Call)
-			if !ok {
-				return
-			}
-			ci := callOf(c)
-			if ci.static != nil && isPkgFunc(ci.static, "reflect") && ci.static.Name() == "Elem" {
-				if c2, ok := c.Call.Args[0].(*ssa.Call); ok && callOf(c2).static != nil && callOf(c2).static.Name() == "ValueOf" {
-					if _, f := loadOfField(cv(c2.Call.Args[0])); f != nil && sameField(f, R.FValPtr) {
-						structVals = append(structVals, c)
-					}
-				}
-			}
-		})
 		var bad []string
 		fieldSel := 0
-		for _, w := range P.writeSites(fn) {
-			if !w.viaReflect {
-				continue
-			}
-			for _, sv := range structVals {
-				if cv(w.target) == sv {
-					bad = append(bad, fmt.Sprintf("%s on the whole destination struct at %s", w.what, P.ipos(w.in)))
+		for _, u := range P.nodeUnits(fn) {
+			u.with(func() {
+				eachInstr(u.fn, func(_ *ssa.BasicBlock, _ int, in ssa.Instruction) {
+					c, ok := in.(*ssa.Call)
+					if !ok {
+						return
+					}
+					ci := callOf(c)
+					if ci.static != nil && isPkgFunc(ci.static, "reflect") && ci.static.Name() == "Elem" {
+						if c2, ok := c.Call.Args[0].(*ssa.Call); ok && callOf(c2).static != nil && callOf(c2).static.Name() == "ValueOf" {
+							if _, f := loadOfField(cv(c2.Call.Args[0])); f != nil && sameField(f, R.FValPtr) {
+								structVals = append(structVals, c)
+							}
+						}
+					}
+				})
+			})
+		}
+		for _, u := range P.nodeUnits(fn) {
+			for _, w := range P.writeSites(u.fn) {
+				if !w.viaReflect {
+					continue
+				}
+				for _, sv := range structVals {
+					if cv(w.target) == sv {
+						bad = append(bad, fmt.Sprintf("%s on the whole destination struct at %s", w.what, P.ipos(w.in)))
+					}
 				}
 			}
 		}
